@@ -1938,7 +1938,7 @@ def _op_rename(self, op):
         self.stat("rename-map-object-reused")
     self._last_rmap = (rmap, dict(op["map"]))
     old = list(node.coll.chromnames)
-    new = [rmap.get(n, n) for n in old]
+    new = [op["map"].get(n, n) for n in old]      # what the caller's map SAYS (not what is left of it)
     if len(set(new)) != len(new):
         raise Skip("renaming would create duplicate names")
     uri = uri_of(path, self.fpath(fid), op.get("slash", True))
